@@ -125,6 +125,7 @@ def run(ctx):
     R.rule("C24-R5", "a number's printed text follows its value: every value-changing assignment of primitive resets the remembered literal text", floor=11)
     R.rule("C24-R6", "floating-point numbers are written with enough digits to be read back exactly (max_digits10)", floor=2)
     R.rule("C24-R7", "the reader accepts every object key the writer can emit: no size condition on a quoted key", floor=1)
+    R.rule("C24-R8", "a number is dumped from the union member that belongs to its stored tag (primitive::toString)", floor=11)
     R.rule("C24-R4", "object keys are decoded with the string decoder", floor=1)
 
     # locate the escaper: a function in json.cpp with an escaping switch
@@ -346,6 +347,26 @@ def run(ctx):
         R.ob("C24-R6", ok, "occa::toString<%s>" % T_, "%s significant digits written, %d needed" % (digits, need), f.site(sp[0]) if sp else f.relfile,
              "every %s is read back as the same value" % T_ if ok else
              "a %s needs %d significant digits to round-trip; with %s some neighbouring values share one text: parse(dump(v)) != v and distinct values get the same hash" % (T_, need, digits))
+
+    # ---- R8: json numbers are written with primitive::toString() ----------------------------------------------------------------------------
+    from rules.c14 import arms_of, SCALARS
+    pts = [f for f in st.funcs.values() if f.q == "occa::primitive::toString" and f.d.get("tmpl") != "inst"] if hasattr(st, "funcs") else []
+    if not pts:
+        pts = [f for f in ctx.program(["src/types/primitive.cpp"], thorough_all=False).funcs.values() if f.q == "occa::primitive::toString" and f.d.get("tmpl") != "inst"]
+    if len(pts) != 1:
+        raise AnalysisBroken("primitive::toString not found (%d)" % len(pts))
+    pt = pts[0]
+    sws = [n for n in pt.walk() if n["k"] == "SwitchStmt"]
+    if len(sws) != 1:
+        raise AnalysisBroken("primitive::toString: expected one switch over the tag")
+    for tag, sts in arms_of(sws[0]):
+        if tag not in SCALARS:
+            continue
+        members = sorted({x.get("n", "").split("::")[-1] for s_ in sts for x in walk(s_) if x["k"] == "MemberExpr" and "primitive" in x.get("n", "") and x.get("n", "").split("::")[-1] in SCALARS})
+        ok = members == [tag]
+        R.ob("C24-R8", ok, pt.q, "tag %s reads value.%s" % (tag, "/".join(members) or "?"), pt.site(sts[0]) if sts else pt.relfile,
+             "member matches the tag" if ok else
+             "a number stored as %s is printed from value.%s: the dump shows another value (int16 -1 is written 65535) and parse(dump(x)) != x" % (tag, "/".join(members) or "?"))
 
     # ---- R7 ------------------------------------------------------------------------------------------------------------------------------
     lof = prog.fn(J + "loadObjectField")
